@@ -172,7 +172,7 @@ theorem unhandled_fails_with_E (env : Env) (fuel : Nat) (states : Json) (name : 
     (retries : Nat) (e msg : Str) (st : St)
     (h : decideError ((listOf (fld state "Retry")).map retrierOf) ((listOf (fld state "Catch")).map catcherOf) e retries = .uncaught) :
     handleErr env (fuel + 1) states name state data ctx retries e msg st =
-      (.failed e (causeOf msg) false, st.fanFailedIf state) := by
+      (.failed e (causeOf msg) false, (st.fanFailedIf state).failTok) := by
   simp [handleErr, h]
 
 /-- a retried state is re-run on its *original raw input* with the incremented retry count -/
@@ -263,7 +263,7 @@ theorem missing_next_fails (env : Env) (fuel : Nat) (states : Json) (name : Str)
     (state raw out ctx : Json) (retries : Nat) (st : St)
     (hE : isTrue (fld state "End") = false) (hN : fldStr state "Next" = none) :
     leave env (fuel + 2) states name state raw out ctx retries st =
-      (.failed (S "States.Runtime") (some (.str (S "<cause>"))) false, st.fanFailedIf state) := by
+      (.failed (S "States.Runtime") (some (.str (S "<cause>"))) false, (st.fanFailedIf state).failTok) := by
   rw [missing_next_handled_on_raw_input env (fuel + 1) states name state raw out ctx retries st hE hN]
   exact unhandled_fails_with_E env fuel states name state raw ctx retries (S "States.Runtime") (S "m") st
     (states_all_excludes_unrecoverable _ _ (S "States.Runtime") _ (by decide))
